@@ -136,6 +136,7 @@ class Oracle(object):
         self.problems = []
         self.pha_requested = 0
         self.pha_attempts = 0
+        self.ku = {"c": [0, 0], "s": [0, 0]}     # successful KeyUpdate ops per endpoint: [not requested, requested]
         self.close_wait_pha = False
 
     def peer(self, w):
@@ -155,6 +156,8 @@ class Oracle(object):
                 self.problems.append(("c16:read-exceeds-max", "op %d: read returned more than max" % idx))
         if name == "hb" and kind == "ok" and op[3] >= 16:
             self.hb_sent[w].append(bytes(op[2]))
+        if name == "ku" and kind == "ok":
+            self.ku[w][op[2]] += 1
         if name == "pha":
             self.pha_attempts += 1
         if name == "pha" and kind == "ok":
@@ -204,6 +207,14 @@ class Oracle(object):
             if crg != swg or srg != cwg:
                 self.problems.append(("c16:keys-out-of-step", "after draining: client (read %s, write %s) vs server (read %s, write %s)"
                                       % (crg, cwg, srg, swg)))
+            # RFC 8446 4.6.3: every own KeyUpdate advances the sending keys once, and every update_requested
+            # received must be answered with exactly one KeyUpdate of one's own
+            want_c = sum(self.ku["c"]) + self.ku["s"][1]
+            want_s = sum(self.ku["s"]) + self.ku["c"][1]
+            if (cwg, swg) != (want_c, want_s):
+                self.problems.append(("c16:keyupdate-request-not-answered-once",
+                                      "after draining: write generations client %s server %s, expected %d and %d from the KeyUpdates issued %r"
+                                      % (cwg, swg, want_c, want_s, self.ku)))
         for x in "cs":
             log = [p for p, _ in cn.hblog[x]]
             peer_ok = cn.conn(self.peer(x)).heartbeat_can_receive
@@ -388,10 +399,11 @@ def run(ctx):
                        "an unsolicited heartbeat response is not required to be fatal (RFC 6520 section 4: discard silently)"]
     lc = ctx.lean()
     rng = ctx.rng
-    budget = ctx.pick(110.0, 900.0)
+    t_start = ctx.elapsed()
+    budget = ctx.pick(80.0, 900.0)
     fatal_cases(ctx, lc)
     n_hist = 0
-    while ctx.elapsed() < budget and n_hist < ctx.pick(700, 12000):
+    while ctx.elapsed() - t_start < budget and n_hist < ctx.pick(1500, 20000):
         n_hist += 1
         flavour = "tls13" if rng.random() < 0.7 else "old"
         cfg = gen_cfg(rng, flavour)
